@@ -2,6 +2,7 @@ SPECIFICATION Spec
 CONSTANTS
   TruncateBytesThenDecode = FALSE
   StopTimerNeedsFloat = TRUE
+  RecorderConversionPartial = FALSE
 INVARIANT NonInterference
 INVARIANT ObserversTotal
 INVARIANT StatsOnce
